@@ -156,7 +156,9 @@ def edits(root, sm):
         C = sm.top if cname is None else sm.types.get(cname)
         if C is not None and C.kt in ("basic-key", "identifier"):
             for tag, nm in (("key", "stra\u00dfe"), ("multikey", "caf\u00e9"), ("key", "kind\u00b2"),
-                            ("key", "a\u0660")):
+                            ("key", "a\u0660"),
+                            # the only non-ASCII characters that lower() / upper() turn into ASCII letters
+                            ("key", "\u212aey"), ("multikey", "mar\u212a"), ("key", "d\u0131m"), ("key", "cla\u017f")):
                 def f(root, ci=ci, tag=tag, nm=nm):
                     containers(root)[ci][0].append(mk(tag, name=nm, attribute="zz_na"))
                 add("R9:non-ascii-in-%s-name" % tag, depth, f)
@@ -172,6 +174,14 @@ def edits(root, sm):
 
     def f(root):
         root.append(mk("abstracttype", name="kind\u00b2"))
+    add("R9:non-ascii-in-abstracttype-name", 0, f)
+
+    def f(root):
+        root.append(mk("sectiontype", name="\u212aind"))
+    add("R9:non-ascii-in-type-name", 0, f)
+
+    def f(root):
+        root.append(mk("abstracttype", name="lin\u212a"))
     add("R9:non-ascii-in-abstracttype-name", 0, f)
     # R3 use before definition
     for ci, (el, cname) in enumerate(conts):
@@ -1030,6 +1040,25 @@ def run_shard(spec):
                     res.nontrivial(key=render(c2))
                     for sig, d in check_doc(sx, False, label, render(c2), c2x):
                         res.fail(sig, {"xml": sx, "comp": render(c2), "comp2": c2x, "valid": False, "edit": label}, d)
+            if not fl2 and mode in ("src", "package"):
+                # R1 across documents: a type name of the imported document is also defined by the
+                # importing schema itself -- before or after the <import>, as written or in another
+                # letter case, as a concrete or as an abstract type
+                moved = [el for el in parts[1] if el.tag in TYPE_TAGS and el.get("name")]
+                for el in moved[:2]:
+                    for before in (True, False):
+                        for tag in ("sectiontype", "abstracttype"):
+                            s2 = copy.deepcopy(parts[0])
+                            twin = ET.Element(tag, name=rng.choice([el.get("name"), case_variant(el.get("name"))]))
+                            twin.tail = "\n"
+                            at = [k for k, ch in enumerate(list(s2)) if ch.tag == "import"][0]
+                            s2.insert(at if before else at + 1, twin)
+                            label = "R1:type-name-of-imported-document-defined-%s-the-import" % ("before" if before else "after")
+                            res.evaluations += 1
+                            counters["split-edit:R1-across-documents"] += 1
+                            res.nontrivial(key=render(s2) + cx)
+                            for sig, d in check_doc(render(s2), False, label, cx, c2x):
+                                res.fail(sig + ":in-%s" % mode, {"xml": render(s2), "comp": cx, "comp2": c2x, "valid": False, "edit": label}, d)
         # a registry of the application's own that resolves plain names through search()
         if i % 4 == 1 and 'datatype="string"' in xml:
             x3 = xml.replace('datatype="string"', 'datatype="zcvplain"')
